@@ -66,8 +66,15 @@ func keyBytes(k int) []byte {
 	// keys have different lengths (4..7 bytes; a longer key is followed by a shorter
 	// one): code that keeps key bytes in a reused buffer must cope with a stale tail.
 	// The first four bytes decide the order, so index order == byte order.
+	if !varKeys {
+		return []byte(fmt.Sprintf("k%03d", k))
+	}
 	return []byte(fmt.Sprintf("k%03d", k) + "~~~"[:[4]int{3, 0, 2, 1}[k%4]])
 }
+
+// varKeys is the "varkeys" knob of the running plan (runs of one process are
+// sequential): plans recorded before the knob existed use 4-byte keys.
+var varKeys bool
 
 // kvEncode is the harness's own encoder of the KV item layout
 // [2-byte little-endian key length][key][value].
@@ -172,6 +179,7 @@ func newNitroEnv(env *Env) *nitroEnv {
 	ne := &nitroEnv{env: env, s: env.S, model: NewMVModel(), nodeID: map[*skiplist.Node]int{}, okDel: map[int]int{}}
 	ne.mm = p.Knob("mm", 0) == 1
 	ne.kv = p.Knob("kv", 0) == 1
+	varKeys = p.Knob("varkeys", 0) == 1
 	ne.overlap = p.Knob("overlap", 0) == 1
 	ne.nkeys = p.Knob("nkeys", 4)
 	ne.cfg = ne.makeConfig()
